@@ -14,6 +14,7 @@ import (
 	"path/filepath"
 	"runtime"
 	"strings"
+	"sync"
 	"syscall"
 	"time"
 
@@ -77,7 +78,8 @@ func parent(id, tier string) int {
 		cmd.Env = append(cmd.Env, "GORACE=halt_on_error=0 exitcode=0 history_size=5 log_path="+racePrefix)
 	}
 	var tail ring
-	cmd.Stdout = os.Stdout
+	vcount := &violationCounter{}
+	cmd.Stdout = io.MultiWriter(os.Stdout, vcount)
 	cmd.Stderr = io.MultiWriter(errFile, &tail)
 	if err := cmd.Start(); err != nil {
 		fmt.Fprintln(os.Stderr, err)
@@ -99,6 +101,13 @@ func parent(id, tier string) int {
 		}
 	}
 	if timedOut {
+		if n := vcount.count(); n > 0 {
+			// The violations already reported (each with its replay file) stand;
+			// only the rest of the exploration is missing. A tree that makes call
+			// after call hang can use up the budget one watchdog at a time.
+			fmt.Fprintf(os.Stderr, "check %s exceeded its wall-clock watchdog (%v) after reporting %d violation(s): they stand, the exploration is incomplete (see %s)\n", id, limit, n, errPath)
+			return 1
+		}
 		fmt.Fprintf(os.Stderr, "check %s exceeded its wall-clock watchdog (%v): inconclusive, see %s\n", id, limit, errPath)
 		return 2
 	}
@@ -133,6 +142,39 @@ func parent(id, tier string) int {
 	}
 	fmt.Fprintf(os.Stderr, "check %s failed (exit %d); stderr tail:\n%s\n", id, code, lastLines(out, 40))
 	return 2
+}
+
+// violationCounter counts the VIOLATION lines the child prints.
+type violationCounter struct {
+	mu   sync.Mutex
+	part []byte
+	n    int
+}
+
+func (v *violationCounter) Write(p []byte) (int, error) {
+	v.mu.Lock()
+	defer v.mu.Unlock()
+	v.part = append(v.part, p...)
+	for {
+		i := bytes.IndexByte(v.part, '\n')
+		if i < 0 {
+			break
+		}
+		if bytes.HasPrefix(v.part[:i], []byte("VIOLATION property=")) {
+			v.n++
+		}
+		v.part = v.part[i+1:]
+	}
+	if len(v.part) > 1<<16 {
+		v.part = v.part[len(v.part)-(1<<10):]
+	}
+	return len(p), nil
+}
+
+func (v *violationCounter) count() int {
+	v.mu.Lock()
+	defer v.mu.Unlock()
+	return v.n
 }
 
 type ring struct{ buf bytes.Buffer }
